@@ -1103,10 +1103,15 @@ UNDECIDED += [
     ('w13-handover-lines-screened', ['C13'], [(A, _ASM_FRONT, "    lines = [l for l in lines if l.contents.split('#')[0].strip(', \\t')]\n    items = [parse_item(lex_tokens(l)) for l in lines]\n")]),
 ]
 
-UNDECIDED += [
-    # accepted by the C13 rules themselves; the verdict is withheld by a shared engine (bitdom: REGISTERS written outside its literal;
-    # wiring: int(token) as a constructor argument) or by a loop shape the reader rule does not follow (counter advanced on two paths)
+PRESERVING += [
+    # an alias added by item assignment after the literal: folded by the program model (facts._module_setitem) and therefore seen by the
+    # encoder interpreter too (was: no verdict, bitdom withheld it for a table written outside its literal)
     ('w13-registers-item-assignment', ['C13'], [(A, "'s0':   8, 'fp': 8,", "'s0':   8,"), (A, _REG_TABLE_END, _REG_TABLE_END + "# the frame pointer is another name of s0\nREGISTERS['fp'] = 8\n")]),
+]
+
+UNDECIDED += [
+    # accepted by the C13 rules themselves; the verdict is withheld by a shared engine (wiring: int(token) as a constructor argument)
+    # or by a loop shape the reader rule does not follow (counter advanced on two paths)
     ('w13-counter-both-paths', ['C13'], [(A, _RD_LOOP + _RD_SKIP, _RD_COUNTER_BOTH)]),
     ('w13-rtype-number-converted', ['C13'], [(A, _RTYPE_RET, _RTYPE_HEAD + "        if is_int(rs2):\n            return RTypeInstruction(line, name, rd, rs1, int(rs2, 0))\n"
                                               "        return RTypeInstruction(line, name, rd, rs1, rs2)\n")]),
@@ -1204,3 +1209,8 @@ UNDECIDED += [
     # exist already, so the field order - and the rebuilt item - do not depend on the hash seed; the rule no longer claims they do
     ('c16-set-iteration-update-existing', ['C16'], [(A, "        for key, value in d.items():\n            # skip if item field is not a register\n            if key not in REGS:\n                continue", "        for key in REGS & set(d.keys()):\n            value = d[key]")]),
 ]
+# ---- round 7: white-box audit of C01 / C02 / C06 / C07 (program model, %hi / %lo evaluation rule, rebuild invariant, pack rule) ----
+from .variants_w5 import BREAKING as _W5_BREAKING, PRESERVING as _W5_PRESERVING, UNDECIDED as _W5_UNDECIDED  # noqa: E402
+BREAKING += _W5_BREAKING
+PRESERVING += _W5_PRESERVING
+UNDECIDED += _W5_UNDECIDED
